@@ -21,7 +21,7 @@ RULE = ('two real ActiveObjects, the real fabric; the first has 0-3 timed source
 ASSUMPTIONS = ['virtual time; horizon 3-6 periods after the stop']
 PROBES = ['stop_with_pending_or_midstep', 'stop_at_timer_wake_instant', 'stop_from_handler']
 PLAN = {
-  'quick': {'strata': {'external': 2500, 'from-handler': 1000}, 'wall_s': 150, 'chunk': 50, 'min_conclusive': 800},
+  'quick': {'strata': {'external': 2500, 'from-handler': 1000}, 'wall_s': 300, 'chunk': 50, 'min_conclusive': 800},
   'thorough': {'strata': {'external': 70000, 'from-handler': 30000}, 'wall_s': 900, 'chunk': 100, 'min_conclusive': 8000},
 }
 
